@@ -89,6 +89,39 @@ def lookup(b0: bool, b1: bool, b2: bool, dup: bool, d0: bool, d1: bool, d2: bool
     return ok, True, "got=%s %r expected=%r" % (kind, res, exp)
 
 
+def two_descriptors(n_lookups: int, qb: int, second_has: bool, with_binding: bool):
+    """An entity with two IDPSSODescriptors that both declare SSO endpoints, looked up several
+    times: every lookup returns exactly the declared endpoints (lookups do not alter the store)."""
+    Clock(1000)
+    n_lookups, qb, second_has, with_binding = concrete(n_lookups), concrete(qb), concrete(second_has), concrete(with_binding)
+    d1 = md.IDPSSODescriptor(protocol_support_enumeration=samlp.NAMESPACE,
+                             single_sign_on_service=[md.SingleSignOnService(binding=BINDS[0], location=LOC1[0]),
+                                                     md.SingleSignOnService(binding=BINDS[1], location=LOC1[1])])
+    d2 = md.IDPSSODescriptor(protocol_support_enumeration=samlp.NAMESPACE,
+                             single_sign_on_service=[md.SingleSignOnService(binding=BINDS[0], location=LOC2[0])] if second_has else [],
+                             single_logout_service=[md.SingleLogoutService(binding=BINDS[2], location=LOC2[2])])
+    s1 = InMemoryMetaData(None, "")
+    s1.do_entity_descriptor(md.EntityDescriptor(entity_id=A, idpsso_descriptor=[d1, d2]))
+    STORE.metadata = {"s1": s1}
+    want_all = {BINDS[0]: [LOC1[0]] + ([LOC2[0]] if second_has else []), BINDS[1]: [LOC1[1]]}
+    ok = True
+    last = None
+    for _ in range(n_lookups):
+        try:
+            if with_binding:
+                got = STORE.service(A, "idpsso_descriptor", "single_sign_on_service", BINDS[qb])
+                last = [s["location"] for s in got]
+                ok = ok and (last == want_all.get(BINDS[qb], []))
+            else:
+                got = STORE.service(A, "idpsso_descriptor", "single_sign_on_service")
+                last = dict((b, [s["location"] for s in v]) for b, v in got.items())
+                ok = ok and (last == want_all)
+        except UnsupportedBinding:
+            last = "unsupported"
+            ok = ok and with_binding and (BINDS[qb] not in want_all)
+    return ok, True, "last=%r" % (last,)
+
+
 USES = ["signing", "encryption", None]
 
 
@@ -169,7 +202,7 @@ STORE2.http = _Http()
 STORE2.security = _Sec()
 
 
-def signed_md(signed: bool, wrapper: bool, has_cert: bool, outcome: int, twice: bool):
+def signed_md(signed: bool, wrapper: bool, has_cert: bool, outcome: int, twice: bool, no_sec: bool = False):
     """MetadataStore.load('remote', ...) of a document that is signed or not, with or without a
     configured verification certificate, the verification answering True / False / raising."""
     Clock(1000)
@@ -178,22 +211,32 @@ def signed_md(signed: bool, wrapper: bool, has_cert: bool, outcome: int, twice: 
     _Sec.outcome = outcome
     _Sec.calls = 0
     exc = None
-    try:
-        STORE2.load("remote", url="http://md.example.org/fed.xml", cert="cert.pem" if has_cert else "")
-    except Exception as e:
-        exc = e
+    if no_sec:
+        # a source that was configured with a certificate but never handed a security context
+        # (what MetadataStore.imp() does for file sources): nothing can be verified
+        m = MetaDataExtern(None, "http://md.example.org/fed.xml", None, "cert.pem" if has_cert else "", _Http())
+        try:
+            m.load()
+        except Exception as e:
+            exc = e
+        STORE2.metadata = {"x": m}
+    else:
+        try:
+            STORE2.load("remote", url="http://md.example.org/fed.xml", cert="cert.pem" if has_cert else "")
+        except Exception as e:
+            exc = e
     served = None
     try:
         served = STORE2.single_sign_on_service(A, BINDING_HTTP_REDIRECT)
     except Exception:
         served = None
     must_verify = signed & has_cert
-    trusted = (not must_verify) | (outcome == 0)
+    trusted = (not must_verify) | ((outcome == 0) & (not no_sec))
     if trusted:
         ok = (served is not None) and (len(served) == 1) and (served[0]["location"] == LOC1[0])
     else:
         ok = (served is None) and (A not in STORE2.keys())
-    if must_verify:
+    if must_verify and not no_sec:
         ok = ok and (_Sec.calls >= 1)
     return ok, True, "served=%r exc=%r calls=%d" % (served, exc, _Sec.calls)
 
@@ -374,10 +417,14 @@ CONDITIONS = [
          bounds="IdP A with 2 key descriptors and SP B with 1, each use in {signing, encryption, unspecified}; B's certificate equal to / different from A's; "
                 "query entity in {A, B, unknown} x use in {signing, encryption}"),
     Cond(name="signed_md", fn="signed_md",
-         params=[("signed", "bool"), ("wrapper", "bool"), ("has_cert", "bool"), ("outcome", "int"), ("twice", "bool")],
-         pre=["0 <= outcome <= 2"], partitions={"quick": [{"twice": False}]}, timeout={"quick": 600, "thorough": 1200}, path_timeout=60,
+         params=[("signed", "bool"), ("wrapper", "bool"), ("has_cert", "bool"), ("outcome", "int"), ("twice", "bool"), ("no_sec", "bool")],
+         pre=["0 <= outcome <= 2"], partitions={"quick": [{"twice": False, "no_sec": False}, {"twice": False, "no_sec": True, "outcome": 0}]}, timeout={"quick": 600, "thorough": 1200}, path_timeout=60,
          functions=["mdstore.MetadataStore.load('remote')", "mdstore.MetaDataExtern.load", "mdstore.InMemoryMetaData.parse_and_check_signature/parse/signed"],
          bounds="document signed/unsigned x EntitiesDescriptor/EntityDescriptor root x verification certificate configured or not x verification answers True / False / raises"),
+    Cond(name="two_descriptors", fn="two_descriptors", params=[("n_lookups", "int"), ("qb", "int"), ("second_has", "bool"), ("with_binding", "bool")],
+         pre=["1 <= n_lookups <= 3", "0 <= qb <= 2"], partitions={"quick": [{}]}, timeout={"quick": 600, "thorough": 900}, path_timeout=60,
+         functions=["mdstore.InMemoryMetaData.service", "mdstore.MetadataStore.service"],
+         bounds="one entity with two descriptors of the same role both declaring the queried service; 1-3 consecutive lookups, with and without a binding filter"),
     Cond(name="requirements", fn="requirements",
          params=[("req1", "int"), ("opt1", "int"), ("cat1", "int"), ("req2", "int"), ("opt2", "int"), ("cat2", "int"), ("qe", "int")],
          pre=["0 <= req1 < 8", "0 <= opt1 < 8", "0 <= cat1 < 4", "0 <= req2 < 8", "0 <= opt2 < 8", "0 <= cat2 < 4", "0 <= qe <= 2"],
